@@ -143,6 +143,31 @@ Theorem C14_subs_id_collision_example : srun_out pcfg_clean nonneg sinit ex_sops
 Proof. exact ex_sseq. Qed.
 Print Assumptions C14_subs_id_collision_example.
 
+(* the optional per-object features (method statistics, traces) and the other methods of the generic
+   object are transparent for the register and its subscribers: such a call — from whichever
+   connection, wherever it stands in a sequence — changes nothing and emits nothing, so it can be
+   erased from any sequence: same final state, same acknowledged registrations; hence the theorem
+   above holds with them interleaved anywhere ([ops] there ranges over them too) *)
+Theorem C14_subs_features_transparent : forall c valid s cn a, sstep c valid s (SAux cn a) = (s, RDone, []).
+Proof. exact aux_transparent. Qed.
+Print Assumptions C14_subs_features_transparent.
+Theorem C14_subs_features_erasable : forall c valid ops s act,
+  srun c valid s act (filter (fun o => negb (is_aux o)) ops) = srun c valid s act ops.
+Proof. exact srun_erase_aux. Qed.
+Print Assumptions C14_subs_features_erasable.
+(* executed: statistics on; two connections subscribe with the same user id under the same message id;
+   each accepted write — by a third connection, by the service — reaches both, each on its own
+   connection, also after traces went on and statistics off; one leaves, the other keeps its events *)
+Theorem C14_subs_features_example : srun_out pcfg_clean nonneg sinit ex_feature_sops =
+  [(RDone, []); (RDone, []); (RDone, []);
+   (RDone, [(prop_uid, ((0%nat, 5), le 4 33)); (prop_uid, ((1%nat, 5), le 4 33))]);
+   (RDone, []); (RDone, []);
+   (RDone, [(prop_uid, ((0%nat, 5), le 4 34)); (prop_uid, ((1%nat, 5), le 4 34))]);
+   (RDone, []);
+   (RDone, [(prop_uid, ((0%nat, 5), le 4 35))])].
+Proof. exact ex_feature_seq. Qed.
+Print Assumptions C14_subs_features_example.
+
 (* ---- an object with several properties: one register per declared property (PropertyMulti.v) ---- *)
 
 (* an operation acts on the register its name resolves to exactly as the one-property register above
